@@ -165,6 +165,20 @@ Proof.
   eexists. eexists. split; [vm_compute; reflexivity|reflexivity].
 Qed.
 
+(* F40:  "b'x'\nos\n"  - a bytes literal in front of the new block (a __future__ import there is a SyntaxError) *)
+Definition w40_blocks : list block :=
+  [Other [mkStmt KBytes (dec "b'x'$a;"); mkStmt KCode (dec "os$a;")] None].
+Lemma F40_refuted :
+  exists pro rest nb, insert_new unchanged w40_blocks = Ok ((pro ++ Imps nb :: sep_block :: rest)%list, nb) /\
+                      exists s, In s (stmts_of pro) /\ is_bytes s = true.
+Proof.
+  exists [Other (firstn 1 (match w40_blocks with [Other ss _] => ss | _ => [] end)) None].
+  eexists. eexists. split; [vm_compute; reflexivity|]. eexists. split; [left; reflexivity|reflexivity].
+Qed.
+Example F40_repaired :
+  exists rest nb, insert_new repaired w40_blocks = Ok ((Imps nb :: sep_block :: rest)%list, nb).
+Proof. eexists. eexists. vm_compute. reflexivity. Qed.
+
 (* non-vacuity of no_internal_error: its hypotheses hold of the F35 input *)
 Example no_internal_error_nonvacuous :
   inv wnv_blocks /\ ok_seq (iblocks wnv_blocks) /\
